@@ -3,6 +3,18 @@ import json, os
 VERIF = os.path.dirname(os.path.dirname(os.path.abspath(__file__)))
 
 CHECKS = {
+    "C10": dict(
+        category="exploration",
+        text="Context.tla defines the context space (8 hash seeds x 6 orders of the file arguments x 13 sequences of unrelated prior builds in the "
+             "same interpreter x 3 worlds) and the non-interference statement; TLC enumerates and emits every configuration, each is executed on the "
+             "real code in an interpreter started with that PYTHONHASHSEED and compared with the baseline context: diagnostics byte for byte "
+             "(as a set across file orders), cache records byte for byte under a logical clock, and a warm run in the same interpreter. "
+             "Exploration is the honest level: the state machine adds no reachability argument here, it generates the space.",
+        design_ref="DESIGN.md 5.C10",
+        note="in-process builds with fixtures; worlds are acyclic with several indirect / suppressed dependencies and union types; cache-record "
+             "equality is only demanded between runs with the same file order",
+        technique="TLA+ spec (Context.tla) enumerates the context space with TLC; every configuration executed on real mypy and compared with the baseline context",
+    ),
     "C02": dict(
         category="model_checking",
         text="Incremental.tla models the cache protocol of build.py operation by operation (load/validate incl. the meta-rewriting mtime path, "
